@@ -81,6 +81,7 @@ type Op struct {
 	F      int    `json:"f"`
 	S      int    `json:"s"`
 	Filter bool   `json:"filter"`
+	Count  int    `json:"count"`
 	Batch  []Item `json:"batch"`
 }
 
@@ -122,6 +123,8 @@ type Result struct {
 	ID    int        `json:"id"`
 	Outs  []StepDump `json:"outs"`
 	Hang  string     `json:"hang,omitempty"`
+	// Missed: a subscriber that keeps up was not handed a forwarded request while another one was stalled
+	Missed []string `json:"missed,omitempty"`
 	Panic string     `json:"panic,omitempty"`
 }
 
@@ -166,9 +169,15 @@ type sub struct {
 	lastMarker atomic.Int64
 	empties    atomic.Int64
 	disconnect func()
+	stalled    atomic.Bool
+	gate       chan struct{}
 }
 
 func (s *sub) handle(_ context.Context, r xkv.TxReader) {
+	if s.stalled.Load() {
+		<-s.gate // a subscriber that does not keep up: its handler blocks until the node is closed
+		return
+	}
 	var b [][]int64
 	n := 0
 	marker := int64(-1)
@@ -311,6 +320,8 @@ type Cluster struct {
 	msgs     []kv.TxRequest
 	marker   int64
 	universe []uint32
+	anyStall bool     // some subscriber has been stalled: observer waits become soft
+	missed   []string // soft waits that timed out
 }
 
 type hang struct{ what string }
@@ -323,6 +334,37 @@ func waitFor(what string, cond func() bool) {
 		}
 		if time.Now().After(deadline) {
 			panic(hang{what})
+		}
+		if i < 50 {
+			time.Sleep(5 * time.Microsecond)
+		} else {
+			time.Sleep(100 * time.Microsecond)
+		}
+	}
+}
+
+// softWait is waitFor, except that once a subscriber has been stalled a timeout is recorded and the
+// script goes on (what the other subscribers were handed is then visible in the dumps) instead of
+// being reported as a hang. After the first miss the cap is short.
+func (c *Cluster) softWait(what string, cond func() bool) {
+	if !c.anyStall {
+		waitFor(what, cond)
+		return
+	}
+	cap := waitCap
+	if len(c.missed) > 0 {
+		cap = 150 * time.Millisecond
+	}
+	deadline := time.Now().Add(cap)
+	for i := 0; ; i++ {
+		if cond() {
+			return
+		}
+		if time.Now().After(deadline) {
+			if len(c.missed) < 20 {
+				c.missed = append(c.missed, what)
+			}
+			return
 		}
 		if i < 50 {
 			time.Sleep(5 * time.Microsecond)
@@ -451,8 +493,13 @@ func (c *Cluster) barrier(n *Node) {
 	if _, err := c.leaseCl.Send(c.ctx, n.addr, kv.TxRequest{Context: c.ctx, Leaseholder: node.Key(n.key)}); err != nil {
 		panic(fmt.Sprintf("lease marker: %v", err))
 	}
+	before := n.internal.empties.Load()
+	_ = before
 	want := n.lWant
-	waitFor("local marker at observer", func() bool { return n.internal.empties.Load() >= want })
+	c.softWait("local marker at observer", func() bool { return n.internal.empties.Load() >= want })
+	if n.internal.empties.Load() < want {
+		n.lWant = n.internal.empties.Load()
+	}
 	// M: gossip ingress path
 	c.marker++
 	j := c.marker
@@ -461,12 +508,12 @@ func (c *Cluster) barrier(n *Node) {
 		markerOp(keyM, j, markerVerBase+j), markerOp(keyR, 0, markerVerBase)}})
 	fbWant := n.fbWant
 	waitFor("marker feedback", func() bool { return n.markerFb.Load() >= fbWant })
-	waitFor("marker at observers", func() bool {
+	c.softWait(fmt.Sprintf("marker at observers of node %d", n.key), func() bool {
 		if n.internal.lastMarker.Load() != j {
 			return false
 		}
 		for _, s := range n.subs {
-			if s.lastMarker.Load() != j {
+			if !s.stalled.Load() && s.lastMarker.Load() != j {
 				return false
 			}
 		}
@@ -614,6 +661,7 @@ func (c *Cluster) Step(o Op) (rc int) {
 			return 0
 		}
 		c.abortRecoveries(n)
+		n.releaseStalled()
 		if err := n.db.Close(); err != nil && !errors.Is(err, context.Canceled) {
 			panic(fmt.Sprintf("close: %v", err))
 		}
@@ -628,6 +676,31 @@ func (c *Cluster) Step(o Op) (rc int) {
 	case "recover":
 		c.recBegin(o.N, o.P)
 		c.recEnd(o.N, o.P)
+		c.barrierAll()
+	case "stall":
+		n := c.nodes[o.N]
+		if n == nil {
+			return 0
+		}
+		s := n.subs[o.S]
+		if s == nil || s.stalled.Load() {
+			return 0
+		}
+		s.gate = make(chan struct{})
+		s.stalled.Store(true)
+		c.anyStall = true
+		// more forwarded requests than the subscriber's private buffer holds (empty lease-forwarded
+		// TxRequests: persisted, forwarded to every observer, invisible to engines and gossip)
+		cnt := o.Count
+		if cnt <= 0 {
+			cnt = 70
+		}
+		for i := 0; i < cnt; i++ {
+			n.lWant++
+			if _, err := c.leaseCl.Send(c.ctx, n.addr, kv.TxRequest{Context: c.ctx, Leaseholder: node.Key(n.key)}); err != nil {
+				panic(fmt.Sprintf("stall filler: %v", err))
+			}
+		}
 		c.barrierAll()
 	case "sub":
 		n := c.nodes[o.N]
@@ -758,8 +831,10 @@ func (c *Cluster) Dump(withSubs bool) StepDump {
 		d.Nodes = append(d.Nodes, nd)
 		if withSubs {
 			ids := make([]int, 0, len(n.subs))
-			for id := range n.subs {
-				ids = append(ids, id)
+			for id, s := range n.subs {
+				if !s.stalled.Load() {
+					ids = append(ids, id)
+				}
 			}
 			sort.Ints(ids)
 			for _, id := range ids {
@@ -785,10 +860,23 @@ func (c *Cluster) Dump(withSubs bool) StepDump {
 	return d
 }
 
+func (n *Node) releaseStalled() {
+	for _, s := range n.subs {
+		if s.stalled.Load() && s.gate != nil {
+			select {
+			case <-s.gate:
+			default:
+				close(s.gate)
+			}
+		}
+	}
+}
+
 func (c *Cluster) Close() {
 	for _, k := range c.keys {
 		n := c.nodes[k]
 		c.abortRecoveries(n)
+		n.releaseStalled()
 		_ = n.db.Close()
 	}
 	for _, k := range c.keys {
@@ -831,6 +919,7 @@ func RunCase(cs Case, withSubs bool) (res Result) {
 			}
 		}
 		if c != nil {
+			res.Missed = c.missed
 			done := make(chan struct{})
 			go func() { defer close(done); defer func() { _ = recover() }(); c.Close() }()
 			select {
